@@ -1,5 +1,6 @@
 """Scenario generator, pure reference loop and direct oracles for the driver-level properties
 (C01, C02, C09, C10, C16, C20, parts of C08)."""
+import copy
 import hashlib
 import itertools
 import json
@@ -43,10 +44,16 @@ def gen_scenario(rng, bias=None):
         p = {'name': f'p{pi}', 'maxT': rng.choice([None, None, None, 0, 1, 2]) if not contract or rng.random() < 0.3 else None,
              'new': {}, 'adv': {}, 'aos': {}, 'tr': {}}
         stop_from = rng.randint(1, S) if rng.random() < 0.5 else S      # STOP only as a suffix (contract)
+        # each pass is acyclic on its own (so it terminates); with its own order two passes can undo each other, so a pass
+        # meets the same content again (the main loop still ends: it stops as soon as a round does not shrink the total)
+        rank_p = rank
+        if rng.random() < bias.get('p_own_rank', 0.3):
+            rank_p = list(range(nc))
+            rng.shuffle(rank_p)
         for c in range(nc):
             if rng.random() < 0.9:
                 p['new'][str(c)] = 0
-            lower = [d for d in range(nc) if rank[d] < rank[c]]
+            lower = [d for d in range(nc) if rank_p[d] < rank_p[c]]
             for s in range(S):
                 if s + 1 < S:
                     p['adv'][f'{c}.{s}'] = s + 1
@@ -72,6 +79,13 @@ def gen_scenario(rng, bias=None):
                 if nxt is not None and rng.random() < 0.9:
                     p['aos'][f'{c}.{s}'] = nxt
         passes.append(p)
+    # the same pass listed twice: with a different max-transforms (as the shipped groups do) or as an exact duplicate
+    if npass >= 2 and rng.random() < bias.get('p_twin', 0.15):
+        i, j = rng.sample(range(npass), 2)
+        twin = copy.deepcopy(passes[i])
+        if rng.random() < 0.7:
+            twin['maxT'] = rng.choice([1, 2]) if passes[i]['maxT'] is None else None
+        passes[j] = twin
     idx = list(range(npass))
     groups = {'first': [], 'main': [], 'last': []}
     rng.shuffle(idx)
@@ -104,6 +118,19 @@ def gen_scenario(rng, bias=None):
         cfg.update(maxImp=rng.choice([None, None, 0, 1, 3]), skipN=rng.choice([None, None, 0, 1, 2]),
                    silent=rng.random() < 0.4, die=rng.random() < 0.12, noGiveUp=rng.random() < 0.2,
                    alsoInteresting=rng.choice([None, None, 7]))
+    if not contract and rng.random() < bias.get('p_endless', 0.0):
+        # a pass that never says STOP and whose helper only fails: only the give-up limit ends it
+        q = passes[rng.randrange(npass)]
+        kind = rng.choice(['ERROR', 'INVALID', 'mixed'])
+        for c in range(nc):
+            q['new'][str(c)] = 0
+            for s_ in range(S):
+                q['adv'][f'{c}.{s_}'] = (s_ + 1) % S
+                q['tr'][f'{c}.{s_}'] = [kind if kind != 'mixed' else rng.choice(['ERROR', 'INVALID']), c, s_]
+        q['maxT'] = None
+        cfg['noGiveUp'] = False
+        cfg['die'] = False
+        consts = dict(consts, GIVEUP_CONSTANT=rng.choice([2, 5, 9]), MAX_CRASH_DIRS=consts.get('MAX_CRASH_DIRS', 10))
     scen = {'texts': texts, 'files': files, 'disk': disk, 'passes': passes, 'groups': groups, 'cfg': cfg, 'consts': consts,
             'test': test, 'faults': faults, 'N': rng.choice([1, 2, 2, 3, 4]), 'p_done': rng.choice([0.0, 0.3, 0.6, 1.0]),
             'wait_policy': rng.choice(['first', 'random']), 'mode': 'reduce', 'contract': contract, 'rank': rank, 'fuel': 400}
@@ -151,7 +178,7 @@ def ref_sequential(scen):
                 if won is None:
                     break
                 disk[k] = won[0]
-                log.append(f'C{pi}.{k}.{won[0]}')
+                log.append(f'C{H.pass_keys(scen)[pi]}.{k}.{won[0]}')      # events are labelled by repr(pass), as the driver's are
                 if size[won[0]] >= 3 * start:
                     break
                 st = p['aos'].get(f'{won[0]}.{won[1]}')
